@@ -433,7 +433,7 @@ def run(m, chk):
         "define them and asks both for the same size (PAIR); the literal seeds satisfy length / sum / symmetry / moment equations against closed forms coded in the checker (SEED); Integrate.* do not modify the curve "
         "and depend on all their inputs. Exactness order of the *computed* rules, the closed-form spline integral and polyline length are not decided."
     )
-    chk.decides = ["PRODUCT-SAME-NODES (curve and weight function are sampled at the same mapped nodes in Integrate.scalar)", "TRUNC-FLOAT (no integer obtained by truncating a float quotient is used on the path: the quadrature tables are built with exact binomials)", "D-VALUE (the integrators never divide by a value of the curve)", "END-EXACT (closed reference nodes are mapped onto a span with an expression that is exact at both ends)", "PURE-MEMO", "PAIR (family and size)", "SEED", "PURE", "DEP-MAY", 'MEMO-KEY (no value-keyed memoisation)', 'DEFAULT-OPEN (the default rule has no node at a span end)', 'JACOBIAN (span sums are multiplied by the span length)', 'PIECEWISE-EVAL (with a closed rule on offer, each span evaluates its own piece)', 'PRECOND-LB (sizes the library chooses satisfy the asserted minimum of every rule they can reach)']
+    chk.decides = ["UFUNC-FLOAT (float-only numpy functions are applied to converted values: exact data do not raise TypeError)", "PRODUCT-SAME-NODES (curve and weight function are sampled at the same mapped nodes in Integrate.scalar)", "TRUNC-FLOAT (no integer obtained by truncating a float quotient is used on the path: the quadrature tables are built with exact binomials)", "D-VALUE (the integrators never divide by a value of the curve)", "END-EXACT (closed reference nodes are mapped onto a span with an expression that is exact at both ends)", "PURE-MEMO", "PAIR (family and size)", "SEED", "PURE", "DEP-MAY", 'MEMO-KEY (no value-keyed memoisation)', 'DEFAULT-OPEN (the default rule has no node at a span end)', 'JACOBIAN (span sums are multiplied by the span length)', 'PIECEWISE-EVAL (with a closed rule on offer, each span evaluates its own piece)', 'PRECOND-LB (sizes the library chooses satisfy the asserted minimum of every rule they can reach)']
     chk.not_decided = ["exactness order of the computed rules for every n (Linalg.invert)", "Integrate.scalar equals the closed form", "polyline length"]
     chk.assume("numpy.polynomial.legendre.leggauss is deterministic")
     tabs, acc = pure_memo(r, chk)
@@ -466,6 +466,9 @@ def run(m, chk):
     from .extra import product_same_nodes
 
     product_same_nodes(r, chk, "calculus.Integrate.scalar")
+    from .extra import ufunc_float
+
+    ufunc_float(r, chk, ["calculus.Integrate.density"])
     from .extra import end_exact
 
     nee = end_exact(r, chk, ["calculus.Integrate.scalar", "calculus.Integrate.density", "calculus.Integrate.function"])
